@@ -144,6 +144,16 @@ def keyword_loop(prog, disp):
     raise AnalysisError("dispatcher: keyword dispatch call (callee drawn from VALIDATORS) not found")
 
 
+
+def _valsem(ctx, which):
+    """dispatch_eval / entry_points_eval of sa/rules/valsem.py, computed once per run; False when outside the evaluated fragment"""
+    from . import valsem
+    key = "_valsem_" + which
+    if key not in ctx.extra:
+        ctx.extra[key] = getattr(valsem, which)(ctx.prog) or False
+    v = ctx.extra[key]
+    return v if v and "raises" not in v else None
+
 def rule_short_circuit(ctx, rid="R2.1"):
     prog = ctx.prog
     disp = dispatcher(prog)
@@ -151,6 +161,19 @@ def rule_short_circuit(ctx, rid="R2.1"):
     sp = schema_param(prog, disp)
     r = ctx.rule(rid, "when $ref is present the dispatch iterable is the single entry (\"$ref\", value); "
                       "otherwise it is the schema's own items", floor=2)
+    sem = _valsem(ctx, "dispatch_eval")
+    if sem is not None:
+        # decided on the package's own Validator class, built by running create() inside the definitional interpreter with
+        # recording keyword functions
+        if sem["ref-alone"] is None and sem["all-errors"] is None:
+            r.ok(site(disp) + " [$ref]", "next to $ref only the $ref function runs, with the reference (also the empty string) as its value")
+            r.ok(site(disp) + " [no $ref]", "without $ref every known key of the schema is dispatched, in order")
+        elif sem["ref-alone"] is not None:
+            key = "ref-presence-by-truthiness" if "empty-string" in sem["ref-alone"] else "iterable:siblings-dispatched"
+            r.fail("%s|%s" % (disp.qual, key), site(disp), sem["ref-alone"])
+        else:
+            r.fail("%s|iterable:_schema.items()" % disp.qual, site(disp), sem["all-errors"])
+        return r
     lookup, refvar, tests = find_ref_test(prog, disp)
     if tests and tests[0][0] == "truthiness":
         t = tests[0][1]
@@ -198,6 +221,14 @@ def rule_ref_opaque(ctx, rid="R2.1b"):
     cfg = cfg_of(disp)
     sp = schema_param(prog, disp)
     r = ctx.rule(rid, "on the $ref-present path no other key of the same schema object is read (a reference object is opaque)", floor=2)
+    sem = _valsem(ctx, "dispatch_eval")
+    if sem is not None:
+        if sem["ref-alone"] is None:
+            r.ok(site(disp) + " [siblings]", "no sibling keyword function is called next to $ref")
+            r.ok(site(disp) + " [id]", "an id next to $ref is not entered as a scope")
+        else:
+            r.fail("%s|sibling-read|semantic" % disp.qual, site(disp), sem["ref-alone"])
+        return r
     lookup, refvar, tests = find_ref_test(prog, disp)
     if tests and tests[0][0] == "truthiness":
         t = tests[0][1]
